@@ -189,25 +189,32 @@ def defaultView {κ ρ} (handleCtx : Msg → κ → ρ) : View → κ → ρ := 
 (`Next::run`); it may call the continuation any number of times with any request, or not at all. -/
 abbrev Mw (κ ρ : Type) := Option κ → Msg → (Msg → ρ) → ρ
 
-/-- `Next::run` -/
-def nextRun {κ ρ} (h : Handler κ ρ) (ctx : Option κ) : List (Mw κ ρ) → Msg → ρ
+/-- `Next::run`.  `fwdCtx` is a fact of the source: the `Next` handed to a middleware is rebuilt with
+`ctx: self.ctx` (true) or loses the context (false – `next.ctx()` is then `None` for every link and the
+leaf is reached through `handle`).  What a middleware sees through `next.ctx()` is the context of the
+`Next` it is handed, i.e. of the rebuilt one. -/
+def nextRun {κ ρ} (fwdCtx : Bool) (h : Handler κ ρ) (ctx : Option κ) : List (Mw κ ρ) → Msg → ρ
   | [], req => match ctx with
     | some c => h.handleCtx req c
     | none => h.handle req
-  | m :: rest, req => m ctx req (nextRun h ctx rest)
+  | m :: rest, req => m (if fwdCtx then ctx else none) req (nextRun fwdCtx h (if fwdCtx then ctx else none) rest)
 
 /-- `MiddlewarePipeline`: overrides `handle`, `handle_with_ctx`; `handle_view` is the default;
 `execution` forwards when the source says so (`Gen`). -/
-def pipeline {κ ρ} (execForwards : Bool) (h : Handler κ ρ) (mws : List (Mw κ ρ)) : Handler κ ρ :=
-  let hc : Msg → κ → ρ := fun req c => nextRun h (some c) mws req
-  { handle := fun req => nextRun h none mws req,
+def pipeline {κ ρ} (execForwards fwdCtx : Bool) (h : Handler κ ρ) (mws : List (Mw κ ρ)) : Handler κ ρ :=
+  let hc : Msg → κ → ρ := fun req c => nextRun fwdCtx h (some c) mws req
+  { handle := fun req => nextRun fwdCtx h none mws req,
     handleCtx := hc,
     handleView := defaultView hc,
     execution := if execForwards then h.execution else .inline }
 
 /-- `wrap_with_middlewares`: no middleware ⇒ the handler itself. -/
-def wrapWith {κ ρ} (execForwards : Bool) (h : Handler κ ρ) (mws : List (Mw κ ρ)) : Handler κ ρ :=
-  if mws.isEmpty then h else pipeline execForwards h mws
+def wrapWith {κ ρ} (execForwards fwdCtx : Bool) (h : Handler κ ρ) (mws : List (Mw κ ρ)) : Handler κ ρ :=
+  if mws.isEmpty then h else pipeline execForwards fwdCtx h mws
+
+/-- A middleware that records the context it is shown (`Next::ctx()`; `Next::peer()` is
+`ctx().and_then(|c| c.peer())`) and forwards. The response type carries the log. -/
+def spyMw {κ ρ} : Mw κ (List (Option κ) × ρ) := fun c req k => (c :: (k req).1, (k req).2)
 
 /-- `OffReaderHandler` (the `with_*_blocking` registrars). -/
 def offReader {κ ρ} (h : Handler κ ρ) : Handler κ ρ :=
@@ -311,6 +318,13 @@ structure HandlerFacts where
   /-- `MiddlewarePipeline` and `OffReaderHandler` do NOT override `handle_view` (they use the default) -/
   pipelineViewDefault : Bool
   offReaderViewDefault : Bool
+  /-- every `Next` that `Next::run` builds for a middleware carries `ctx: self.ctx`, and the leaf is
+      called through `handle_with_ctx` when a context is attached -/
+  nextForwardsCtx : Bool
+  /-- body gate of `RegisteredStruct::handle` and of `JsonTypedAdapter::handle` (inline matches) -/
+  structGate : Gate
+  structEmptyBodyIsRead : Bool
+  adapterGate : Gate
   deriving Repr
 
 end Repe.Router
